@@ -15,7 +15,7 @@ import (
 
 func init() {
 	register("C01", runC01, propMeta{
-		Explanation: "Decides, table row by table row, which operation is applied to which operands at which width; it does not compute results. (G1) precedence and associativity from the generated parser: in mathExpression and expression every binary alternative is (precedence predicate k, operator rule, recursive call with k+1) — left associative —, k(mul/div) > k(plus/minus) > 0, k(comparison) > k(logical) > 0, one logical alternative whose operator rule accepts exactly && and ||, the Sempred tables repeat the same k's, the primary alternatives are mathExpression(0) / [!] atom / [!] ( expression(0) ), and mathExpression can reach expression only through an atom's call arguments, so arithmetic binds tighter than comparison; thorough tier: the serialized ATN is decoded and its precedence-predicate transitions compared with the same table; (G2) the listener stores each operator's text into the field of the same name on the enclosing node and Accept* fills Left before Right, so the first child is the left operand; (E1) MathExpression.Evaluate dispatches + - * / (exhaustive over the two operator rules' tokens) to core.Add/Sub/Mul/Div(left value, right value); (E2) by kind-specialised constant propagation over all 15x15 kind pairs of each core function: the only non-error result is `a <op> b` with the function's own operator, left operand read from a and right from b with the accessor of their class, in int64 (signed or mixed), uint64 (both unsigned) or float64 (a float involved), string concatenation a then b for Add only, every other pair reaches only error returns, and every division is reached only over the non-zero edge of a test of b read with its own accessor; (E3) comparison: numberClass/TypeMap cover the 12 numeric kinds, compareNumbers by class pair compares integers as int64/uint64 (mixed signs by a sign test, then uint64) and reaches a float conversion only when a float is involved, its three results are <, ==, > of the same operands left-from-left right-from-right, the six comparison tokens map to eq, !eq, gt, lt, gt||eq, lt||eq, string comparison uses the six Go operators on .String() left-to-right, bool only == and !=, && and || evaluate .Bool() of both sides with the Go operator of the same spelling under a both-bool guard; (E4) `!` is applied last, to a value checked to be bool; (E5) @name/@desc/@sal/@id take the listener's per-rule fields, which are set from the rule header and reset at every rule entry, @id = ParseInt(name,10,64) or 0; literals use ParseInt(…,10,64), ParseFloat(…,64), ParseBool; (E6) every path of these evaluators that is not one of the rows returns a non-nil error. Not decided: numeric results, strconv/lexer behaviour, ANTLR's adaptive prediction engine (the tables it consumes are checked), stack depth.",
+		Explanation: "Decides, table row by table row, which operation is applied to which operands at which width; it does not compute results. (G1) precedence and associativity from the generated parser: in mathExpression and expression every binary alternative is (precedence predicate k, operator rule, recursive call with k+1) — left associative —, k(mul/div) > k(plus/minus) > 0, k(comparison) > k(logical) > 0, one logical alternative whose operator rule accepts exactly && and ||, the Sempred tables repeat the same k's, the primary alternatives are mathExpression(0) / [!] atom / [!] ( expression(0) ), and mathExpression can reach expression only through an atom's call arguments, so arithmetic binds tighter than comparison; thorough tier: the serialized ATN is decoded and its precedence-predicate transitions compared with the same table; (G2) the listener stores each operator's text into the field of the same name on the enclosing node and Accept* fills Left before Right, so the first child is the left operand; (E1) MathExpression.Evaluate dispatches + - * / (exhaustive over the two operator rules' tokens) to core.Add/Sub/Mul/Div(left value, right value); (E2) by kind-specialised constant propagation over all 15x15 kind pairs of each core function: the only non-error result is `a <op> b` with the function's own operator, left operand read from a and right from b with the accessor of their class, in int64 (signed or mixed), uint64 (both unsigned) or float64 (a float involved), string concatenation a then b for Add only, every other pair reaches only error returns, and every division is reached only over the non-zero edge of a test of b read with its own accessor; (E3) comparison: numberClass/TypeMap cover the 12 numeric kinds, compareNumbers by class pair compares integers as int64/uint64 (mixed signs by a sign test, then uint64) and reaches a float conversion only when a float is involved, its three results are <, ==, > of the same operands left-from-left right-from-right, the six comparison tokens map to eq, !eq, gt, lt, gt||eq, lt||eq, string comparison uses the six Go operators on .String() left-to-right, bool only == and !=, && and || evaluate .Bool() of both sides with the Go operator of the same spelling under a both-bool guard; (E4) `!` is applied last, to a value checked to be bool; (E5) @name/@desc/@sal/@id take the listener's per-rule fields, which are set from the rule header and reset at every rule entry, @id = ParseInt(name,10,64) or 0; literals use ParseInt(…,10,64), ParseFloat(…,64), ParseBool; (E6) every path of these evaluators that is not one of the rows returns a non-nil error. E3 closes with: every freshly computed boolean that becomes an expression's result is produced under an operator case that has evaluated both operands and established both kinds (no answer from one operand alone). Not decided: numeric results, strconv/lexer behaviour, ANTLR's adaptive prediction engine (the tables it consumes are checked), stack depth.",
 		Assumptions: []string{"Go's int64/uint64/float64 operators (wrapping, truncating division)", "fmt.Sprintf(\"%s%s\") concatenates", "ANTLR interprets precedence predicates as documented"},
 		Trusted:     append([]string{"antlr4 Go runtime ATN deserializer (thorough tier only, decoding a constant table)"}, commonTrusted...),
 	})
@@ -1060,6 +1060,10 @@ func (c *Ctx) ruleE3(rule string) {
 					gs := x.boolForm(g, leaf, 0)
 					tb, tIsC := constBool(t.V)
 					eb, eIsC := constBool(e.V)
+					if !tIsC && x.Origin(t.V) == x.Origin(g) {
+						// the tested value itself, stored where it is true (A0 2f)
+						tb, tIsC = true, true
+					}
 					switch {
 					case tIsC && tb:
 						form = "(" + gs + " || " + x.boolForm(e.V, leaf, 0) + ")"
@@ -1158,6 +1162,80 @@ func (c *Ctx) ruleE3(rule string) {
 			c.Check(rule, "Expression.Evaluate#logical "+l, false, f.Pos(), "the grammar produces %q but the evaluator has no case for it", l)
 		}
 	}
+	// every freshly computed boolean that becomes the result is one of the cases checked above: it is
+	// produced under an operator test, with both operands evaluated and their kinds established
+	// (a result taken from one operand alone would let an ill-typed other operand yield a value)
+	var accounted []map[*ssa.BasicBlock]bool
+	for _, t := range x.stringTests(f, "Expression", "LogicalOperator") {
+		if t.lit != "" && kindGuard(t.iff.Block()) == "Bool" {
+			accounted = append(accounted, x.edgeDominated(t.iff.Block(), t.edge))
+		}
+	}
+	for _, t := range x.stringTests(f, "Expression", "ComparisonOperator") {
+		if t.lit == "" {
+			continue
+		}
+		if (cmpCall != nil && domInstr(cmpCall, t.iff)) || kindGuard(t.iff.Block()) != "" {
+			accounted = append(accounted, x.edgeDominated(t.iff.Block(), t.edge))
+		}
+	}
+	for _, t := range x.stringTests(f, "Expression", "NotOperator") {
+		if t.lit == "!" {
+			accounted = append(accounted, x.edgeDominated(t.iff.Block(), t.edge))
+		}
+	}
+	isAccounted := func(b *ssa.BasicBlock) bool {
+		for _, m := range accounted {
+			if m[b] {
+				return true
+			}
+		}
+		return false
+	}
+	stray, strayPos, nFresh := "", f.Pos(), 0
+	eachInstr(f, func(in ssa.Instruction) {
+		st, ok := in.(*ssa.Store)
+		if !ok || !isReflectValue(st.Val.Type()) {
+			return
+		}
+		if _, isCell := x.ResolveAddr(st.Addr).(*ssa.Alloc); !isCell {
+			return
+		}
+		vo, ok := x.Origin(st.Val).(*ssa.Call)
+		if !ok || !fnIs(vo.Call.StaticCallee(), "reflect", "", "ValueOf") {
+			return
+		}
+		arg := x.Unwrap(vo.Call.Args[0])
+		if bt, isB := arg.Type().Underlying().(*types.Basic); !isB || bt.Kind() != types.Bool {
+			return
+		}
+		if _, isConst := arg.(*ssa.Const); isConst {
+			return
+		}
+		nFresh++
+		if isAccounted(st.Block()) {
+			return
+		}
+		// one wrapping shared by several cases: each case's own assignment must be accounted for
+		pvs := x.PossibleValues(arg)
+		okAll, any := true, false
+		for _, pv := range pvs {
+			if pv.Store == nil {
+				continue
+			}
+			any = true
+			if _, isConst := pv.V.(*ssa.Const); isConst && !pv.Outside {
+				continue // a default that no operand decides
+			}
+			if pv.Outside || !isAccounted(pv.Store.Block()) {
+				okAll = false
+			}
+		}
+		if (!any || !okAll) && stray == "" {
+			stray, strayPos = x.boolForm(arg, leafLR, 0), st.Pos()
+		}
+	})
+	c.Check(rule, "Expression.Evaluate#computed-results-accounted", stray == "" && nFresh > 0, strayPos, "%s", map[bool]string{true: fmt.Sprintf("all %d computed boolean results are produced under an operator case with both operands' kinds established", nFresh), false: stray + " becomes the result outside every operator case that establishes the kinds of both operands"}[stray == ""])
 	c.Min(rule, 25)
 }
 
@@ -1398,6 +1476,9 @@ func (c *Ctx) ruleE5(rule string) {
 					}
 				case *ssa.Extract:
 					return walk(tt.Tuple, d+1)
+				case *ssa.Slice:
+					// a piece cut out of the text (hand-written trimming)
+					return walk(tt.X, d+1)
 				}
 				return false
 			}
